@@ -782,8 +782,9 @@ class MemoryPathIO(AbstractPathIO):
             node = self.get_node(path)
             if node is None:
                 raise FileNotFoundError
-            file_like = node.content
-            file_like.seek(0, io.SEEK_SET)
+            # every reader gets its own position: readers of one file must
+            # not move each other's offset
+            file_like = io.BytesIO(node.content.getvalue())
         elif mode in ("wb", "ab", "r+b"):
             node = self.get_node(path)
             if node is None and mode == "r+b":
